@@ -1,5 +1,6 @@
 """C10 - every call terminates, also when racing Close; Close is final and leak-free."""
-import storecheck
+import os
+import storecheck, storelib, vlib
 
 KINDS = dict(storecheck.KF_KINDS)
 
@@ -8,15 +9,31 @@ def classify(kind, tid, line):
     return KINDS.get(kind)
 
 
+def extra(work, v, thorough):
+    """Hybrid part: Hybrid.tla with Close (ClosedQuiet), and the hybrid driver's post-close phase."""
+    mc = storelib.tlc_mc(work, "HybridMC.cfg", module="Hybrid", tag="hmc", timeout=2400)
+    # the invariant must not be vacuous: the design before the repair D19 violates it
+    d19 = vlib.run_tlc(work, "Hybrid", "HybridMC_d19.cfg", workers=4, timeout=600, tag="hmc_d19")
+    if d19.violation != "ClosedQuiet":
+        raise vlib.MachineryError("Hybrid.tla: ClosedQuiet is not violated by the design that serves after Close (got %r)" % (d19.violation,))
+    out = storelib.run_driver(work, "TestVerif_Hybrid", "hybrid", env={"VERIF_N": 600 if thorough else 80}, timeout=2400)
+    tf = os.path.join(out, "hybrid.ndjson")
+    res = storelib.validate(work, tf, "hybrid", module="HybridTrace", cfg="HybridTrace.cfg", timeout=3000)
+    storelib.report(v, work, "C10", tf, res, classify)
+    return {"hybrid_states": mc.distinct, "hybrid_transitions": mc.generated, "hybrid_histories_with_close_phase": res["traces"],
+            "hybrid_events_validated": res["lines"], "_states": mc.distinct, "_trans": mc.generated, "_traces": res["traces"]}
+
+
 PLAN = {
     "mc": [("StoreMC_close.cfg", False, True), ("StoreMC_close2.cfg", True, True)],
     "sims": [("StoreSim_close.cfg", 200, 1500, 61)],
     "drivers": [("TestVerif_StoreClose", 40, 300, "store_close.ndjson", None)],
     "classify": classify,
+    "extra": extra,
     "assumptions": [
         "termination: TLC deadlock check on the close configuration of Store.tla (a state in which some call can never return is a deadlock); on the real store a call that has not returned after 3-4 s is a hang, and a hang in a replayed schedule counts only if a second execution hangs again",
         "leak check: number of goroutines with a frame in internal.(*Store) after Close compared with the number before the store was created",
-        "plain and loading caches; the hybrid cache is covered by C14/C15's harness",
+        "plain and loading caches (gated replay, free-running close driver); hybrid caches (simple and loading): every history of the hybrid driver ends with Close followed by Set/Get on every key and a goroutine census",
     ],
 }
 
